@@ -201,6 +201,28 @@ pub fn run(ctx: &Ctx, out: &mut Out) {
             out.case(crate::prng::fnv64(&c.data), true);
         }
         judge(out, &cfg, &mut d, cases);
+        // VER values whose bytes contain the draft-13 word only at unaligned offsets
+        {
+            let mut cases = Vec::new();
+            for shift in 1..=3usize {
+                for lead in [0u8, 1, 0x80] {
+                    let mut v = vec![lead; shift];
+                    v.extend_from_slice(&DRAFT13.to_le_bytes());
+                    while v.len() % 4 != 0 {
+                        v.push(lead);
+                    }
+                    let vers: Vec<u32> = v.chunks(4).map(|c| u32::from_le_bytes(c.try_into().unwrap())).collect();
+                    if vers.contains(&DRAFT13) {
+                        continue;
+                    }
+                    let data = req::ietf_request_raw(Some(&v), None, Some(&rng.bytes(32)), 1024);
+                    out.case(crate::prng::fnv64(&data), true);
+                    out.obs("unaligned_version_pattern_cases", 1);
+                    cases.push(Case { vers, srv: None, srv_mode: "absent", data });
+                }
+            }
+            judge(out, &cfg, &mut d, cases);
+        }
         // requests that name no version in their own bytes, sent right after a long request whose
         // padding is full of draft-13 version words (a reused receive buffer must not lend them one)
         for _ in 0..6 {
